@@ -431,7 +431,7 @@ Definition read_gvar (g : bytes) : option (Z * Z * Z * Z * Z * Z * otype * list 
 Definition set_u32 (b : bytes) (pos : nat) (v : Z) : bytes := firstn pos b ++ to_be 4 v ++ skipn (pos + 4) b.
 
 (* impl GlyphDataOffsetArray for Gvar :: add_to_font, incl. the klippa Serializer's capacity
-   (orig_size + data length), its refusal to pack an empty object, and the object order
+   (max_new_size = orig_size + data length + offsets length), its refusal to pack an empty object, and the object order
    header+offsets | shared tuples | glyph variation data *)
 Definition gvar_assemble (g : bytes) (hdr : Z * Z * Z * Z * Z * Z * otype * list Z) (T' : otype)
            (os : list Z) (ds : bytes) : res bytes :=
@@ -439,7 +439,7 @@ Definition gvar_assemble (g : bytes) (hdr : Z * Z * Z * Z * Z * Z * otype * list
   let enc := encode_offsets T' os in
   if otype_eqb T' T && negb (len enc =? (gc + 1) * ot_width T) then inl (8, 0) else
   let flags' := if ot_width T' =? 4 then Z.lor flags_lo 1 else Z.land flags_lo 254 in
-  let cap := len g + len ds in
+  let cap := len g + len ds + len enc in
   let mainlen := 20 + len enc in
   if cap <? mainlen + len ds then inl (3, 4) else
   if len ds =? 0 then inl (3, 0) else
